@@ -6,6 +6,17 @@ import subprocess
 ROOT = os.path.dirname(os.path.dirname(os.path.abspath(__file__)))
 
 CHECKS = {
+    "C13": dict(
+        technique="TLA+ state machine of set_ncomp call sequences (SetNcomp.tla: the abstract state is the shape, groups are "
+                  "branch memberships) model-checked by TLC; every reachable state names the directly built module the edited "
+                  "one must equal: refinement replay on tables, groups, structure and one step of all three voltage solvers",
+        category="model_checking", design="4/C13",
+        text="Every sequence of <= 2 (thorough 3) set_ncomp(b, n) calls on two irregular cells with per-branch different geometry, "
+             "channels on some branches and branch groups is executed on the real cell and compared, column by column, with the "
+             "cell built directly with the resulting compartment counts; groups must be the rows TLC computes from branch "
+             "membership; simulation must agree on stone, thomas and jax.sparse (this is where a parent ends up shorter than a "
+             "sibling with children); SWC cells: total length, re-sampled radius profile and groups.",
+        note="Trusted: TLC; groups created through branch views."),
     "C08": dict(
         technique="two TLA+ specifications over integer probe dynamics model-checked by TLC: Integrate.tla (which sample acts in "
                   "which step, t_max padding/truncation, column k = state after k steps, stimuli add, clamps hold) and NetSim.tla "
